@@ -273,6 +273,18 @@ func checkC12(c *Ctx, r *Report) {
 			r.unresolved("C12.R2", "partition receiver", "no result[member][topic] update found")
 		}
 	}
+
+	// ---- R3: every membership change made by the sweep reaches the rebalance trigger
+	r.rule("C12.R3", "a member removed by the expiry / lagger sweep is always reported (so that cleanupGroups starts a rebalance and the member's partitions are reassigned)", 2)
+	sweepDels := map[*ssa.Function][]ssa.Instruction{}
+	for _, w := range fieldWriters(m, tGroupState, "members", true) {
+		if w.Kind == "delete" && (funcName(w.Fn) == gstate+"removeExpiredMembers" || funcName(w.Fn) == gstate+"dropRebalanceLaggers") {
+			sweepDels[w.Fn] = append(sweepDels[w.Fn], w.In)
+		}
+	}
+	for fn, ds := range sweepDels {
+		removalReported(m, r, "C12.R3", fn, ds)
+	}
 }
 
 // ---------------------------------------------------------------------------------------------
@@ -622,7 +634,7 @@ func checkC43(c *Ctx, r *Report) {
 		return
 	}
 	r.rule("C43.R1", "who-may-delete groupState.members, each under its guard", 3)
-	r.rule("C43.R2", "cleanupGroups: after a removal, startRebalance or group deletion happens before the next group", 1)
+	r.rule("C43.R2", "every removal is reported by the sweep helpers, and in cleanupGroups a reported removal is followed by startRebalance or group deletion before the next group", 3)
 	r.rule("C43.R3", "lastHeartbeat refreshed before every NONE heartbeat reply and on every JoinGroup", 2)
 
 	dels := map[string][]ssa.Instruction{}
@@ -668,6 +680,11 @@ func checkC43(c *Ctx, r *Report) {
 	for fnName := range allowed {
 		if len(dels[fnName]) == 0 {
 			r.unresolved("C43.R1", "delete(members) in "+fnName, "expected removal site not found")
+		}
+	}
+	for _, fnName := range []string{gstate + "removeExpiredMembers", gstate + "dropRebalanceLaggers"} {
+		if len(dels[fnName]) > 0 {
+			removalReported(m, r, "C43.R2", dels[fnName][0].Parent(), dels[fnName])
 		}
 	}
 
@@ -768,4 +785,80 @@ func checkC43(c *Ctx, r *Report) {
 			}
 		}
 	}
+}
+
+// removalReported: in a bool-returning helper that deletes members, every path from a delete to a
+// return yields true. The flag is monotone (false initially, only ever assigned true), so the
+// returned value is true iff the path crossed a CFG edge on which one of the phis feeding the
+// return receives the constant true.
+func removalReported(m *Module, r *Report, rule string, fn *ssa.Function, dels []ssa.Instruction) {
+	feeding := map[*ssa.Phi]bool{}
+	var rets []*ssa.Return
+	var collect func(v ssa.Value)
+	collect = func(v ssa.Value) {
+		if p, ok := v.(*ssa.Phi); ok && !feeding[p] {
+			feeding[p] = true
+			for _, e := range p.Edges {
+				collect(e)
+			}
+		}
+	}
+	for _, b := range fn.Blocks {
+		if ret, ok := b.Instrs[len(b.Instrs)-1].(*ssa.Return); ok && len(ret.Results) == 1 {
+			rets = append(rets, ret)
+			collect(ret.Results[0])
+		}
+	}
+	isTrue := func(v ssa.Value) bool {
+		k, ok := v.(*ssa.Const)
+		return ok && k.Value != nil && k.Value.ExactString() == "true"
+	}
+	isFalse := func(v ssa.Value) bool {
+		k, ok := v.(*ssa.Const)
+		return ok && k.Value != nil && k.Value.ExactString() == "false"
+	}
+	trueEdge := map[edge]bool{}
+	for p := range feeding {
+		for i, e := range p.Edges {
+			pred := p.Block().Preds[i]
+			if isTrue(e) {
+				for si, sb := range pred.Succs {
+					if sb == p.Block() {
+						trueEdge[edge{pred, si}] = true
+					}
+				}
+			}
+		}
+	}
+	for _, d := range dels {
+		key := "a removal in " + fn.Name() + " is always reported to the caller"
+		// a constant-false input to a feeding phi on an edge reachable after the delete would reset the flag
+		reset := ""
+		for p := range feeding {
+			for i, e := range p.Edges {
+				if !isFalse(e) {
+					continue
+				}
+				pred := p.Block().Preds[i]
+				if found, _, _ := search(SearchSpec{Start: nextLoc(d), Target: func(in ssa.Instruction) bool { return in.Block() == pred }}); found {
+					reset = "the flag can be reset to false after the removal (edge from " + blockPos(m, pred) + ")"
+				}
+			}
+		}
+		found, tgt, path := search(SearchSpec{Start: nextLoc(d),
+			Removed: func(b *ssa.BasicBlock, si int) bool { return trueEdge[edge{b, si}] },
+			Target: func(in ssa.Instruction) bool {
+				ret, ok := in.(*ssa.Return)
+				return ok && !isTrue(ret.Results[0])
+			}})
+		switch {
+		case reset != "":
+			r.viol(rule, key, m.Pos(d.Pos()), reset)
+		case found:
+			r.viol(rule, key, m.Pos(d.Pos()), "a member is deleted but the function can still return false, so the caller starts no rebalance and the member's partitions stay unowned: "+renderPath(m, path)+" → return at "+m.Pos(tgt.Pos()))
+		default:
+			r.ok(rule, key, m.Pos(d.Pos()), "")
+		}
+	}
+	_ = rets
 }
